@@ -55,8 +55,10 @@ def run(ctx):
     for c in b.calls:
       if c.is_('re:<impl bool>::then_some$|bool::then_some$'):
         d = fmt_desc(describe_operand(b, c.args[0]))
-        if re.match(r'^Lt\(num::from\(.*pointer.*\),Result::unwrap\(.*try_from\(Vec::len\(.*output\)\)\)\)$', d) or ('Lt(' in d and 'output' in d and 'pointer' in fmt_desc(describe_operand(b, c.args[1]))):
-          if 'spacers' not in d and 'divisibility' not in d:
+        if re.match(r'^Lt\(num::from\(.*\),Result::unwrap\(.*try_from\(Vec::len\(.*transaction\.output\)\)\)\)$', d):
+          # the kept value is the very value that was compared
+          kept = fmt_desc(describe_operand(b, c.args[1]))
+          if kept and kept in d:
             ptr_ok = True
   ctx.ob('R16.2', 'ordinals::runestone::Runestone::decipher', 'the pointer is kept only under pointer < transaction.output.len()', ptr_ok, '')
   ir = ctx.body('R16.2', IR)
